@@ -10,41 +10,56 @@ using namespace nifly;
 using namespace vh;
 
 namespace {
-void measure(NifFile& nif, bool def, const std::string& caseJson, const char* variant, std::string& out) {
+// mode: 0 = raw (optimize and sortBlocks off), 1 = default (both on), 2 = optimize on, sortBlocks off
+void measure(NifFile& nif, int mode, const std::string& caseJson, const char* variant, std::string& out) {
+	const bool def = mode == 1, optim = mode != 0, sort = mode == 1;
 	ContentIds ids, qids;
 	// answers that name things (not block numbers) must survive even the first, sorting and pruning, default save
 	long long namesBefore = batteryNames(nif, qids);
-	// the first default save sorts and prunes (block indices move): the query batteries are measured from there, but what
-	// it wrote is the first output of this model: the next save has to write the same
+	// a twin of the model that is never saved answers the query battery too: as long as a save does not have to move or
+	// prune blocks (sorting off, nothing pruned), the saved model must answer like it
+	std::string qTwin;
+	if (!def) {
+		for (auto s : nif.GetShapes()) s->UpdateBounds();
+		NifFile twin(nif);
+		battery(twin, qids);
+		qTwin = battery(twin, qids);
+	}
+	// the first optimizing save may prune (and the default one sorts: block indices move): the query batteries are measured
+	// from there, but what it wrote is the first output of this model: the next save has to write the same
 	uint32_t blocksBeforeFirst = nif.GetHeader().GetNumBlocks();
-	std::string bFirst = def ? saveToString(nif, true, true) : std::string();
+	std::string bFirst = optim ? saveToString(nif, optim, sort) : std::string();
 	bool prunedFirst = nif.GetHeader().GetNumBlocks() != blocksBeforeFirst;
 	long long namesAfterFirst = batteryNames(nif, qids);
-	for (auto s : nif.GetShapes()) s->UpdateBounds();
+	if (def)
+		for (auto s : nif.GetShapes()) s->UpdateBounds();
 	JObj ev;
-	ev.add("e", "resave").raw("case", caseJson).add("opt", def ? "default" : "raw").add("variant", variant);
+	ev.add("e", "resave").raw("case", caseJson).add("opt", def ? "default" : (mode == 2 ? "optimize-only" : "raw")).add("variant", variant);
 	size_t stripParts = 0;
 	for (uint32_t b = 0; b < nif.GetHeader().GetNumBlocks(); b++)
 		if (auto sp = nif.GetHeader().GetBlock<NiSkinPartition>(b))
 			for (auto& p : sp->partitions) stripParts += p.numStrips ? 1 : 0;
 	ev.add("stripPartitions", stripParts > 0);
 	// a save before any query: the history save, queries, save must give the same file twice
-	std::string b0 = saveToString(nif, def, def);
+	std::string b0 = saveToString(nif, optim, sort);
+	bool twinComparable = !def && !prunedFirst;
 	ev.raw("S0", fileAbstract(b0, &nif, ids));
-	// (a first default save that prunes blocks still writes their strings: the two-round convergence that C01 spells out)
-	ev.add("hasFirst", def && !prunedFirst);
-	if (def) ev.raw("Sfirst", fileAbstract(bFirst, &nif, ids)).add("eqFirstRaw", bFirst == b0);
+	// (a first optimizing save that prunes blocks still writes their strings: the two-round convergence that C01 spells out)
+	ev.add("hasFirst", optim && !prunedFirst);
+	if (optim) ev.raw("Sfirst", fileAbstract(bFirst, &nif, ids)).add("eqFirstRaw", bFirst == b0);
 	// some accessors convert cached data lazily (e.g. GetShapePartitions turns partition strips into triangles, which
 	// changes what IsSSECompatible answers): let that settle first, so that a difference can only come from saving
 	battery(nif, qids);
 	ev.raw("q0", battery(nif, qids));
-	std::string b1 = saveToString(nif, def, def);
+	ev.add("twinComparable", twinComparable);
+	if (twinComparable) ev.raw("qTwin", qTwin);
+	std::string b1 = saveToString(nif, optim, sort);
 	ev.raw("S1", fileAbstract(b1, &nif, ids));
 	ev.raw("q1", battery(nif, qids));
-	std::string b2 = saveToString(nif, def, def);
+	std::string b2 = saveToString(nif, optim, sort);
 	ev.raw("S2", fileAbstract(b2, &nif, ids));
 	ev.raw("q2", battery(nif, qids));
-	std::string b3 = saveToString(nif, def, def);
+	std::string b3 = saveToString(nif, optim, sort);
 	ev.raw("S3", fileAbstract(b3, &nif, ids));
 	ev.raw("q3", battery(nif, qids));
 	ev.add("namesBefore", namesBefore).add("namesAfterFirst", namesAfterFirst).add("namesEnd", batteryNames(nif, qids));
@@ -112,7 +127,7 @@ int cmdResave(int argc, char** argv) {
 					auto& hd = nif.GetHeader();
 					hd.DeleteBlock(nif.GetRootNode()->extraDataRefs.GetBlockRef(0));
 					markPhase(3);
-					measure(nif, def != 0, caseOf(k), "built", out);
+					measure(nif, def, caseOf(k), "built", out);
 				}
 				return;
 			}
@@ -132,10 +147,10 @@ int cmdResave(int argc, char** argv) {
 				battery(q, qids);
 			}
 			markPhase(3);
-			for (int def = 0; def < 2; def++) {
+			for (int def = 0; def < 3; def++) {
 				NifFile nif;
 				if (loadFromString(nif, bytes) != 0) return;
-				measure(nif, def != 0, caseOf(k), "fresh", out);
+				measure(nif, def, caseOf(k), "fresh", out);
 			}
 			if (!cases[k].file.empty()) {
 				// the same model with every mapped skin-partition triangle rotated once (same triangle, same winding): files
@@ -152,7 +167,7 @@ int cmdResave(int argc, char** argv) {
 									rotated++;
 								}
 					if (!rotated) break;
-					measure(nif, def != 0, caseOf(k), "rotated-partition-triangles", out);
+					measure(nif, def, caseOf(k), "rotated-partition-triangles", out);
 				}
 				// positions and UVs given through the API with values that the storage formats (half floats, bytes) cannot hold
 				// exactly: saving must convert what it writes, not what the model holds
@@ -175,7 +190,25 @@ int cmdResave(int argc, char** argv) {
 						any = true;
 					}
 					if (!any) break;
-					measure(nif, def != 0, caseOf(k), "inexact-values", out);
+					measure(nif, def, caseOf(k), "inexact-values", out);
+				}
+				// a few vertices of every shape are deleted (the skin data and partitions follow), and a node is added below
+				// the root (stored last: the model is no longer in the order a sorting save would give it)
+				for (int def = 0; def < 3; def++) {
+					NifFile nif;
+					if (loadFromString(nif, bytes) != 0) return;
+					bool any = false;
+					for (auto sh : nif.GetShapes()) {
+						uint16_t nvv = sh->GetNumVertices();
+						if (nvv < 8 || nvv > 20000) continue;
+						std::vector<uint16_t> idx = {uint16_t(1), uint16_t(nvv / 2), uint16_t(nvv - 2)};
+						nif.DeleteVertsForShape(sh, idx);
+						any = true;
+					}
+					MatTransform t;
+					nif.AddNode("AddedLast", t);
+					if (!any && def == 1) break;
+					measure(nif, def, caseOf(k), "vertices-deleted-node-added", out);
 				}
 				// the vertex format changes through the API (colours taken away or given) with no partition rebuild afterwards
 				for (int def = 0; def < 2; def++) {
@@ -193,7 +226,7 @@ int cmdResave(int argc, char** argv) {
 						any = true;
 					}
 					if (!any) break;
-					measure(nif, def != 0, caseOf(k), "vertex-format-changed", out);
+					measure(nif, def, caseOf(k), "vertex-format-changed", out);
 				}
 				// the neighbouring stream version of the same game (Starfield: 172 and 173)
 				{
@@ -208,14 +241,14 @@ int cmdResave(int argc, char** argv) {
 							for (int def = 0; def < 2; def++) {
 								NifFile nif;
 								if (loadFromString(nif, nb) != 0) break;
-								measure(nif, def != 0, caseOf(k), "stream-173", out);
+								measure(nif, def, caseOf(k), "stream-173", out);
 							}
 							// ... and the model as loaded, told through the API to be written as the other version
 							for (int def = 0; def < 2; def++) {
 								NifFile nif;
 								if (loadFromString(nif, bytes) != 0) break;
 								nif.GetHeader().SetVersion(NiVersion(NiFileVersion::V20_2_0_7, 12, 173));
-								measure(nif, def != 0, caseOf(k), "version-set-to-stream-173", out);
+								measure(nif, def, caseOf(k), "version-set-to-stream-173", out);
 							}
 						}
 					}
@@ -238,7 +271,7 @@ int cmdResave(int argc, char** argv) {
 						break;
 					}
 					if (!bound) break;
-					measure(nif, def != 0, caseOf(k), "skeleton-root-node", out);
+					measure(nif, def, caseOf(k), "skeleton-root-node", out);
 				}
 				// one block type relabelled so that the library holds its blocks as opaque ones
 				HeaderInfo h = parseHeader(bytes);
@@ -255,13 +288,13 @@ int cmdResave(int argc, char** argv) {
 						for (int def = 0; def < 2; def++) {
 							NifFile nif;
 							if (loadFromString(nif, ub) != 0 || !nif.HasUnknown()) break;
-							measure(nif, def != 0, caseOf(k), "one-type-unknown", out);
+							measure(nif, def, caseOf(k), "one-type-unknown", out);
 						}
 					}
 				}
 			}
 			if (editSteps && !cases[k].file.empty()) {
-				for (int def = 0; def < 2; def++) {
+				for (int def = 0; def < 3; def++) {
 					NifFile nif;
 					if (loadFromString(nif, bytes) != 0) return;
 					std::mt19937_64 r(seed * 131 + k);
@@ -270,7 +303,7 @@ int cmdResave(int argc, char** argv) {
 						applyGraphOp(nif, jparse(act));
 					}
 					nif.LinkGeomData();
-					measure(nif, def != 0, caseOf(k), "edited", out);
+					measure(nif, def, caseOf(k), "edited", out);
 				}
 			}
 		},
@@ -298,7 +331,7 @@ int cmdOne(int argc, char** argv) {
 		NifFile nif;
 		if (loadFromString(nif, bytes) != 0) return 4;
 		std::string out;
-		measure(nif, def != 0, "{}", "fresh", out);
+		measure(nif, def, "{}", "fresh", out);
 		printf("%zu bytes of record\n", out.size());
 	}
 	return 0;
